@@ -1,0 +1,15 @@
+//go:build verif
+
+package remote
+
+import "context"
+
+// Verification hook (build tag "verif" only) for property C13: lets a fake Blob read the context that
+// a caller passed with WithContext (the options struct is unexported). No behaviour change.
+func VerifOptionContextC13(opts ...Option) context.Context {
+	var o options
+	for _, f := range opts {
+		f(&o)
+	}
+	return o.ctx
+}
